@@ -238,6 +238,18 @@ Touch == \E a \in focus, bal \in (IF Rich THEN {0, 6} ELSE {6}), bump \in {0, 1}
              [acct EXCEPT ![a] = e.acct], wiped, [sto EXCEPT ![a] = Apply(sto[a], W)], codes,
              HeldIS(a, e.new, W), conf /\ Loaded(a))
 
+\* EIP-7702: a transaction set code on an EXISTING externally owned account (nonce >= 1, no code): the account is
+\* touched, not created; its nonce moves, its storage stays, and its new code arrives through the layer with this
+\* commit -- code_by_hash must know it afterwards, exactly as for a creation.
+Delegate == \E a \in focus :
+    LET cur == Info(a)
+        new == Acc(cur.bal, cur.nonce + 1, NewCode) IN
+    /\ cur.ex /\ cur.code = 0 /\ cur.nonce >= 1
+    /\ Write([op |-> "touch", a |-> a, bal |-> new.bal, nonce |-> new.nonce, code |-> new.code,
+              w |-> WithOld(a, <<>>, FALSE)],
+             [acct EXCEPT ![a] = [src |-> "set", info |-> new]], wiped, sto, codes \cup {NewCode},
+             HeldIS(a, new, <<>>), conf /\ Loaded(a))
+
 \* CREATE/CREATE2/create transaction deployed at `a`.  Only where the EVM allows a creation
 \* (EIP-684: nonce 0 and no code; State documents "EVM did necessary checks").  Existing storage
 \* is NOT an obstacle here (EIP-7610 is what has_storage is for, and its default answer is
@@ -296,7 +308,7 @@ ReplaceStorage == \E a \in focus, W \in (IF Rich THEN {<<>>, <<<<2, 4>>>>} ELSE 
 
 Next == /\ Len(hist) < MaxHist
         /\ \/ Basic \/ Storage \/ HasStorage \/ AccountCode \/ CodeByHash \/ BlockHash
-           \/ Touch \/ Create \/ SelfDestruct \/ Untouched \/ Commit2
+           \/ Touch \/ Delegate \/ Create \/ SelfDestruct \/ Untouched \/ Commit2
            \/ InsertInfo \/ InsertStorage \/ ReplaceStorage
 
 Spec == Init /\ [][Next]_vars
